@@ -3,6 +3,7 @@
 package main
 
 import (
+	"bytes"
 	"encoding/asn1"
 	"encoding/binary"
 	"strings"
@@ -86,8 +87,10 @@ func derTLV(tag byte, content ...[]byte) []byte {
 
 // decoder case + totality oracle on one input
 func c08Dec(c *Ctx, entry, total string, b []byte) {
-	c.Case(entry, B(b))
-	c.Check("c08.total."+total, B(b))
+	// the guarded oracle first: an input on which the decoder does not return must not hang the harness
+	if c.Check("c08.total."+total, B(b)) {
+		c.Case(entry, B(b))
+	}
 }
 
 func genC08(c *Ctx) {
@@ -348,6 +351,20 @@ func c08GenTargetInfo(c *Ctx) {
 		for _, m := range Malformed(ti, 64) {
 			c08Dec(c, "ntlm.parse_target_info", "parse_target_info", m)
 		}
+	}
+	// lists longer than 64 KiB (the AV_PAIR walk must not keep its cursor in 16 bits): k pairs of v value bytes,
+	// terminated; chosen so that the cursor passes 65536 exactly, by one pair, and by far
+	for _, kv := range [][2]int{{16, 4092}, {17, 4092}, {33, 2000}, {2, 65535}, {3, 65535}, {300, 255}} {
+		var pairs [][2]interface{}
+		_ = pairs
+		var ti []byte
+		for i := 0; i < kv[0]; i++ {
+			ti = append(ti, byte(1+i%6), 0, byte(kv[1]), byte(kv[1]>>8))
+			ti = append(ti, bytes.Repeat([]byte{byte(i)}, kv[1])...)
+		}
+		ti = append(ti, 0, 0, 0, 0)
+		c08Dec(c, "ntlm.parse_target_info", "parse_target_info", ti)
+		c08Dec(c, "ntlm.parse_target_info", "parse_target_info", ti[:len(ti)-4])
 	}
 	// EOL with a non-zero length, lengths that run past the end
 	for _, b := range [][]byte{{0, 0, 4, 0, 1, 2, 3, 4, 9, 9}, {0, 0, 5, 0, 1}, {1, 0, 0xff, 0xff}, {1, 0, 0xff, 0xff, 0}, {1, 0}, {1, 0, 0}, {1}, {}, {1, 0, 0, 0}, {1, 0, 0, 0, 0, 0, 0, 0, 7}} {
